@@ -106,6 +106,9 @@ func c19(c *q.Ctx) {
 		typ := "i:KContext.Args(p1)[\"lock_type\"]"
 		c.Guard(lk, q.Cond{Canon: "(-1 == big.(*Int).Cmp(big.NewInt(0){Sub(" + acc + ".TotalBalance," + acc + ".LockedBalance[" + typ + "])},big.NewInt(0){SetString(i:KContext.Args(p1)[\"amount\"],10)}))", Sense: true}, q.ToCall("Put"), q.Opt{})
 		c.Effect(lk, q.Eff{Spec: "big::Int.Add", Arg: -2, Glob: acc + ".LockedBalance[" + typ + "]", Why: "the lock of the requested kind grows by the amount", Rule: "K11"})
+		// a refused lock is an ERROR: Propose and Vote reach Lock through ctx.Call and look at the error only, a refusal
+		// reported as a response with a status and a nil error is taken for a granted lock
+		c.Guard(lk, q.Cond{Canon: "(-1 == big.(*Int).Cmp(big.NewInt(0){Sub(" + acc + ".TotalBalance," + acc + ".LockedBalance[" + typ + "])},big.NewInt(0){SetString(i:KContext.Args(p1)[\"amount\"],10)}))", Sense: true}, q.ToSuccess(), q.Opt{})
 	}
 	in := c.Fn(gt + "(*KernMethod).InitGovernTokens")
 	if in != nil {
